@@ -8,6 +8,7 @@ import (
 	"context"
 	"github.com/golang/protobuf/proto"
 	"io"
+	"sync/atomic"
 
 	"github.com/onosproject/onos-lib-go/pkg/errors"
 	baseClient "github.com/openconfig/gnmi/client"
@@ -32,18 +33,27 @@ type Client interface {
 // client gnmi client
 type client struct {
 	client *gclient.Client
+	// subscribed is set once a subscription stream has been opened: the backing client has no stream before
+	subscribed atomic.Bool
 }
 
 // Subscribe calls gNMI subscription bacc
 // sed on a given query
 func (c *client) Subscribe(ctx context.Context, q baseClient.Query) error {
-	err := c.client.Subscribe(ctx, q)
+	if err := c.client.Subscribe(ctx, q); err != nil {
+		// no stream was opened (or the previous one is still the current one): there is nothing new to monitor
+		return errors.FromGRPC(err)
+	}
+	c.subscribed.Store(true)
 	go c.run(ctx)
-	return errors.FromGRPC(err)
+	return nil
 }
 
 // Poll issues a poll request using the backing client
 func (c *client) Poll() error {
+	if !c.subscribed.Load() {
+		return errors.NewUnavailable("no subscription stream is open towards the target")
+	}
 	return c.client.Poll()
 }
 
